@@ -114,6 +114,12 @@ def check(run, project):
         c09.s5(RuleView(run, "S5", "A10"), project)
     except AnalysisError as ex:
         run.info(f"A10: the stream conversion could not be followed ({ex}); not judged here (C09 reports it)")
+    # A11 (= C01-F): missing session areas and the parts a failed response lacks stay absent: per tag / response code the
+    # message walkers decode exactly the fields the layout has for that case (no event, not even an empty one, for the others)
+    try:
+        c01.framing(RuleView(run, "F", "A11"), MarshalRoles(project), ctx.layout(project))
+    except AnalysisError as ex:
+        run.info(f"A11: the message walkers could not be followed ({ex}); not judged here (C01 reports it)")
     run.floor("A1", 100)
     run.floor("A2", 500)
 
